@@ -56,6 +56,14 @@ pub uninterp spec fn eqp(a: Primitive, b: Primitive) -> bool;
     ensures r is Some ==> r->Some_0 < vecs(h)[vid(v)].len() && eqp(vecs(h)[vid(v)][r->Some_0 as int], *p) && (forall|j: int| 0 <= j < r->Some_0 ==> !eqp(#[trigger] vecs(h)[vid(v)][j], *p)),
             r is None ==> forall|j: int| 0 <= j < vecs(h)[vid(v)].len() ==> !eqp(#[trigger] vecs(h)[vid(v)][j], *p)
 { unimplemented!() }
+// structural equality of elements (derived PartialEq of Primitive): uninterpreted, reflexive
+pub uninterp spec fn same(a: Primitive, b: Primitive) -> bool;
+// <[Primitive]>::eq: same length and elementwise equal
+#[verifier::external_body] pub fn cell_slice_eq(h: &Heap, a: &VecH, b: &VecH) -> (r: bool) requires live(h, a), live(h, b)
+    ensures r == (vecs(h)[vid(a)].len() == vecs(h)[vid(b)].len() && forall|i: int| 0 <= i < vecs(h)[vid(a)].len() ==> same(#[trigger] vecs(h)[vid(a)][i], vecs(h)[vid(b)][i])) { unimplemented!() }
+// iter().zip(iter()).all(==): elementwise equal on the common prefix (zip stops at the shorter one)
+#[verifier::external_body] pub fn cell_zip_all_eq(h: &Heap, a: &VecH, b: &VecH) -> (r: bool) requires live(h, a), live(h, b)
+    ensures r == (forall|i: int| 0 <= i < vecs(h)[vid(a)].len() && i < vecs(h)[vid(b)].len() ==> same(#[trigger] vecs(h)[vid(a)][i], vecs(h)[vid(b)][i])) { unimplemented!() }
 #[verifier::external_body] pub fn usize_to_i32(x: usize) -> (r: Result<i32, VErr>) ensures r is Ok <==> x <= i32::MAX, r is Ok ==> r->Ok_0 == x { unimplemented!() }
 #[verifier::external_body] pub fn i32_to_usize(x: i32) -> (r: Result<usize, VErr>) ensures r is Ok <==> x >= 0, r is Ok ==> r->Ok_0 == x { unimplemented!() }
 #[verifier::external_body] pub fn vpanic() requires false { unimplemented!() }
@@ -132,6 +140,26 @@ def cells_pass(toks, log, what):
                     log.append(("R13", text(pp_toks := (["let"] + v)), "(alias of the cell of " + text(h) + ")", "borrow bound to a local"))
                     continue
             k += 1
+    # tuple binding of two borrows
+    pp = Pat("let ( $a , $b ) = ( CELL ( $h1 ) , CELL ( $h2 ) ) ;")
+    k = 0
+    while k < len(t):
+        r = pp.match_at(t, k)
+        if r and len(r[1]["a"]) == 1 and len(r[1]["b"]) == 1:
+            al = {r[1]["a"][0]: r[1]["h1"], r[1]["b"][0]: r[1]["h2"]}
+            rest = t[r[0]:]
+            sub = []
+            for q, tok in enumerate(rest):
+                if tok in al and q + 1 < len(rest) and rest[q + 1] == "." and (q == 0 or rest[q - 1] != "("):
+                    sub += ["CELL", "("] + al[tok] + [")"]
+                elif tok in al and q + 1 < len(rest) and rest[q + 1] == ".":
+                    sub += ["CELL", "("] + al[tok] + [")"]
+                else:
+                    sub.append(tok)
+            t = t[:k] + sub
+            log.append(("R13", "let (a, b) = (borrow, borrow)", "(aliases of the two cells)", "borrows bound to locals"))
+            continue
+        k += 1
     ops = [
         ("CELL ( $h ) . len ( )", "cell_len ( heap , $h )"),
         ("CELL ( $h ) . is_empty ( )", "( cell_len ( heap , $h ) == 0 )"),
@@ -143,6 +171,8 @@ def cells_pass(toks, log, what):
         ("CELL ( $h ) . to_vec ( )", "cell_snapshot ( heap , $h )"),
         ("Vec :: clone ( CELL ( $h ) . as_ref ( ) )", "cell_snapshot ( heap , $h )"),
         ("CELL ( $h ) . iter ( ) . enumerate ( ) . find ( $$c )", "cell_find_eq ( heap , $h , primitive )"),
+        ("CELL ( $a ) [ .. ] . eq ( CELL ( $b ) . as_slice ( ) )", "cell_slice_eq ( heap , $a , $b )"),
+        ("CELL ( $a ) . iter ( ) . zip ( CELL ( $b ) . iter ( ) ) . all ( | ( $x , $y ) | $x == $y )", "cell_zip_all_eq ( heap , $a , $b )"),
     ]
     for a, b in ops:
         t = Rule("R13", a, b, why="cell operation (std::vec::Vec semantics on the heap cell)").apply(t, log)
@@ -191,7 +221,26 @@ pub fn arm_{name}(arguments: Vec<Primitive>, heap: {heap_t}) -> (r: Result<(Opti
 """)
         obls.append(Obl(f"C13.{name}", ["C13", "C17"] if name == "VecRemove" else ["C13"], fn=f"arm_{name}",
                         desc=f"BuiltInFunction::run arm {name}: effect on the heap cell of the receiver (seen by every alias) and result, against the sequence model"))
-    gen = header(log, f"{FUNC}: BuiltInFunction::run arms " + ", ".join(ARMS)) + SPEC + "\n".join(fns) + "\n} // verus!\nfn main() {}\n"
+    # Primitive::equals, arm (P::Vector(v1), P::Vector(v2))
+    feq = src.fn(PRIM, "equals")
+    try:
+        arm = extract_match_arm(feq["body"], "( P :: Vector ( v1 ) , P :: Vector ( v2 ) )")
+    except Exception as e:
+        raise Undecided(f"{PRIM}: arm (P::Vector(v1), P::Vector(v2)) of Primitive::equals not found: {e}")
+    b = cells_pass(arm["body"], log, "equals[Vector]")
+    check_closed(b, "equals[Vector]")
+    fns.append(f"""
+//@ OBL C13.equals.vector
+pub fn equals_vector(v1: &VecH, v2: &VecH, heap: &Heap) -> (r: Result<bool, VErr>)
+    requires live(heap, v1), live(heap, v2)
+    ensures r is Ok, r->Ok_0 == (vecs(heap)[vid(v1)].len() == vecs(heap)[vid(v2)].len()
+                && forall|i: int| 0 <= i < vecs(heap)[vid(v1)].len() ==> same(#[trigger] vecs(heap)[vid(v1)][i], vecs(heap)[vid(v2)][i]))
+{{
+{render(b, 1)}
+}}
+""")
+    obls.append(Obl("C13.equals.vector", ["C13"], fn="equals_vector", desc="list == list: same length and elementwise equal (not just a common prefix)"))
+    gen = header(log, f"{FUNC}: BuiltInFunction::run arms " + ", ".join(ARMS) + f"; {PRIM}: Primitive::equals (list arm)") + SPEC + "\n".join(fns) + "\n} // verus!\nfn main() {}\n"
     return gen, obls, log
 
 
